@@ -267,6 +267,61 @@ def check_hashseed(inp):
     return fails
 
 
+def many_items(n, seed, distinct):
+    rng = random.Random(runner.mix(seed, 1919))
+    pool = None if distinct else [gen.rng_vector(rng, spec.VKEYS[i % 3]) for i in range(7)]
+    out = []
+    for i in range(n):
+        ver = spec.VKEYS[rng.randrange(3)]
+        v = gen.rng_vector(rng, ver) if distinct else pool[rng.randrange(len(pool))]
+        if not distinct:
+            ver = "2" if not v.startswith("CVSS") else ("3" if v.startswith("CVSS:3") else "4")
+        if i % 17 == 0:
+            v = v[:-1]                      # now and then a rejected string
+        out.append(["ctor", ver, v])
+    return out
+
+
+def check_many(inp):
+    """
+    LONG histories: the fixed probe set, then n constructions (all different, or seven vectors over and over), then the probe
+    set again, in one fresh process.  Both probe passes must equal what a short fresh process answers, and the scores of the
+    bulk (every 40th and the last 100) must equal the exact oracles: the thousandth object is an object like the first.
+    """
+    n, seed, distinct = inp["n"], inp["seed"], inp["distinct"]
+    bulk = many_items(n, seed, distinct)
+    r = probe.run_probe(FIXED_PROBE + bulk + FIXED_PROBE, timeout=1800)
+    short = probe.run_probe(FIXED_PROBE)
+    for x in (r, short):
+        if "error" in x or not x.get("import_ok"):
+            raise runner.HarnessError("probe failed: %r" % (x.get("error") or x.get("import_error")))
+    res = [_norm(x) for x in r["results"]]
+    want = [_norm(x) for x in short["results"]]
+    k = len(FIXED_PROBE)
+    fails = []
+    for label, got in (("before", res[:k]), ("after", res[-k:])):
+        for it, a, b in zip(FIXED_PROBE, want, got):
+            if a != b:
+                fails.append(failure(a, b, note="probe item %s evaluated %s %d constructions vs alone in a fresh process" % (json.dumps(it)[:120], label, n)))
+                break
+    idx = sorted(set(list(range(0, n, 40)) + list(range(max(0, n - 100), n))))
+    for i in idx:
+        kind, ver, v = bulk[i]
+        got = res[k + i]
+        ok = ref.classify(ver, v)[0] == ref.OK
+        if ok != ("exc" not in got):
+            fails.append(failure("accepted" if ok else "rejected", got.get("exc") or "accepted", note="construction number %d of the history: %s" % (i + 1, v)))
+        elif ok:
+            exp = list(scorecheck.as_floats(scorecheck.expected_scores(ver, v)))
+            if ver == "4":
+                exp = exp[:1]
+            if list(got.get("scores", []))[:len(exp)] != exp:
+                fails.append(failure(exp, got.get("scores"), note="construction number %d of the history: %s" % (i + 1, v)))
+        if len(fails) >= 3:
+            break
+    return fails
+
+
 ROUNDINGS = (decimal.ROUND_CEILING, decimal.ROUND_DOWN, decimal.ROUND_FLOOR, decimal.ROUND_HALF_DOWN,
              decimal.ROUND_HALF_EVEN, decimal.ROUND_HALF_UP, decimal.ROUND_UP, decimal.ROUND_05UP)
 PRECS = (28, 29, 34, 50, 200)
@@ -593,6 +648,15 @@ def decimal_part(idx, n_env, seed):
     return part
 
 
+def many_part(j, n, seed):
+    part = runner.Part(PID)
+    inp = {"n": n, "seed": runner.mix(seed, j), "distinct": j % 2 == 0}
+    part.count(None, classes=("long-history", "long-history:" + ("distinct" if inp["distinct"] else "repeated")), n=n)
+    part.nontrivial_count += 1
+    part.check("many", check_many, inp)
+    return part
+
+
 def fresh_one(item):
     """one probe item in its own fresh interpreter process: a result with no history at all"""
     r = probe.run_probe([item])
@@ -640,6 +704,8 @@ def run(tier, t0):
         part.count(None, classes=("ambient-in-fresh-process",))
         part.nontrivial_count += 1
         part.check("ambient", check_ambient, {"items": items})
+    for p in runner.parallel("vf.props.c19", "many_part", [(j, (1500, 3000, 5000, 2500)[j] if q else (20000, 30000, 40000, 25000)[j], runner.SEED) for j in range(4)]):
+        part.merge(p)
     part.merge(runner.hyp_shards("vf.props.c19", "history_part", 320 if q else 4000, args=(20 if q else 40, baseline)))
     part.merge(runner.hyp_shards("vf.props.c19", "schedule_part", 800 if q else 16000))
     for p in runner.parallel("vf.props.c19", "stress_part", [(s, 1200 if q else 10000, runner.SEED) for s in range(4)]):
@@ -659,10 +725,10 @@ def run(tier, t0):
                          ["decimal sticky flags are not part of the context the library must preserve; precisions >= 28 only",
                           "schedules are explored at line granularity in frames of cvss/*.py; interleavings inside one line are left to the free-running stress",
                           "lazy imports of the standard library are triggered by a warm-up before the first snapshot"],
-                         required=("history", "op:ctor-valid", "op:ctor-invalid", "op:rh-mismatch", "op:text", "op:interactive", "op:cli",
+                         required=("long-history", "history", "op:ctor-valid", "op:ctor-invalid", "op:rh-mismatch", "op:text", "op:interactive", "op:cli",
                                    "batch-compared", "ambient-in-fresh-process", "schedule", "switches>=10", "same-job-in-several-threads", "distinct-jobs", "free-running-stress", "hashseed", "decimal", "prec=28", "prec=200"),
                          extra={"forced_thread_switches": part.extra.get("switches", 0), "traced_line_events": part.extra.get("line_events", 0)})
 
 
 CHECKS = {"history": check_history, "schedule": check_schedule, "hashseed": check_hashseed, "decimal": check_decimal,
-          "ambient": check_ambient}
+          "ambient": check_ambient, "many": check_many}
